@@ -261,7 +261,7 @@ let run_window2 g _obs =
   let (s3, outs) = List.fold_left (fun (s, acc) i ->
       let (rx, an, na) = frame_of ("f" ^ string_of_int i) in
       let (s', o) = rx_event e d s rx an na (n_of_int 1) in (s', acc @ o)) (s1, []) (List.init nf (fun i -> i + 1)) in
-  let downs_only = List.filter (function ODown _ -> true | _ -> false) outs in
+  let downs_only = if (try g "pubs" = "1" with _ -> false) then outs else List.filter (function ODown _ -> true | _ -> false) outs in
   (out_strings downs_only ^ " " ^ dump_all s3 euis, s1, s3)
 
 let run_history g obs (judge : n list -> step list -> string) =
